@@ -21,7 +21,9 @@ EXPLANATION = (
     "(reserve_or_steal with reserved == true on that path), together with that reservation's class. R-SPLIT-ORDER: partial_put_huge "
     "fills the bitfield (toggle(FrameId(0), ORDER, false)) before it CASes the huge marker away. R-BLIND-WRITES: reservation slots, "
     "bitfield rows and entries are only taken with swap/CAS/try_update outside initialisation (a load-then-store loses a concurrent "
-    "update). R-WAIT-PANIC: no panic is control dependent on the outcome of waiting for another thread."
+    "update). R-WAIT-PANIC: no panic is control dependent on the outcome of waiting for another thread. "
+    "R-BALANCE / R-RESERVE-BEFORE-LOWER (shared with C04/C15): every path gives back what it took, and charges the tree it allocates "
+    "from - otherwise the counter assertions (`free <= TREE_FRAMES`) fire in a later, well-behaved free."
 )
 
 
@@ -182,3 +184,7 @@ def run(rep, programs):
     r_split_order(rep, prog)
     c01.r_blind_writes(rep, prog)
     r_wait_panic(rep, prog)
+    # counters stay consistent with the bitfields (otherwise the counter assertions in Tree::put / unreserve fire)
+    from props import c04, c15
+    c04.r_balance(rep, prog)
+    c15.r_reserve_before_lower(rep, prog)
